@@ -3,12 +3,13 @@
 EXTENDS BSPContract, TraceKit, Integers
 VARIABLES l, m, cur
 vars == <<l, m, cur>>
-NoCfg == [qcap |-> 0, maxbatch |-> 0, blocking |-> FALSE, kind |-> "batch"]
+NoCfg == [qcap |-> 0, maxbatch |-> 0, blocking |-> FALSE, kind |-> "batch", exportTimeout |-> FALSE]
 Init == l = 1 /\ m = Fresh(NoCfg) /\ cur = -1
 TStep == /\ l <= Len(Trace)
          /\ LET e == Trace[l] IN
             IF e.ev = "Cfg"
-              THEN m' = Fresh([qcap |-> e.qcap, maxbatch |-> e.maxbatch, blocking |-> e.blocking, kind |-> e.kind]) /\ cur' = e.sc
+              THEN m' = Fresh([qcap |-> e.qcap, maxbatch |-> e.maxbatch, blocking |-> e.blocking, kind |-> e.kind,
+                                exportTimeout |-> e.exportTimeout]) /\ cur' = e.sc
               ELSE IF e.sc # cur   \* straggler of an earlier scenario that was abandoned as non-quiescent
               THEN UNCHANGED <<m, cur>>
               ELSE LET r == Step(m, e) IN
